@@ -196,6 +196,9 @@ func (vc *VC) callCommon(st *State, v *ssa.Call, cc *ssa.CallCommon, args []Term
 			return
 		}
 		spec := vc.P.findSpec(callee)
+		if spec == nil && vc.tryInline(st, v, callee, args, guard, pos) {
+			return
+		}
 		if spec == nil {
 			// nothing is known about the callee: where the function promises not to panic, the call
 			// must be covered by a recovering handler
@@ -1429,4 +1432,221 @@ func (vc *VC) havocValue(sortName string) string {
 		vc.assume(sx("str_wf", f))
 	}
 	return f
+}
+
+// ---------------------------------------------------------------------------
+// Inlining of small helpers without contract
+//
+// A function of the repository that has no contract, no loop, no defer/go/select/recover and no captured
+// variables is executed in place at its call site (up to three levels deep): its instructions generate the
+// same obligations they would generate in the caller's body, its return paths are merged.  This keeps a
+// refactoring that moves a few statements into a helper from turning into "callee without contract", and
+// makes a change hidden in such a helper visible to the caller's postconditions.
+
+const maxInlineDepth = 3
+const maxInlineBlocks = 80
+
+func (vc *VC) inlinable(f *ssa.Function) bool {
+	if f == nil || len(f.Blocks) == 0 || len(f.Blocks) > maxInlineBlocks || len(f.FreeVars) != 0 || f.Recover != nil {
+		return false
+	}
+	if f.Pkg == nil || !strings.HasPrefix(f.Pkg.Pkg.Path(), logPath) {
+		return false
+	}
+	if vc.inlineDepth >= maxInlineDepth {
+		return false
+	}
+	for _, g := range vc.inlineStack {
+		if g == f {
+			return false
+		}
+	}
+	// acyclic
+	color := map[*ssa.BasicBlock]int{}
+	var dfs func(b *ssa.BasicBlock) bool
+	dfs = func(b *ssa.BasicBlock) bool {
+		color[b] = 1
+		for _, s := range b.Succs {
+			if color[s] == 1 {
+				return false
+			}
+			if color[s] == 0 && !dfs(s) {
+				return false
+			}
+		}
+		color[b] = 2
+		return true
+	}
+	if !dfs(f.Blocks[0]) {
+		return false
+	}
+	for _, b := range f.Blocks {
+		for _, in := range b.Instrs {
+			switch x := in.(type) {
+			case *ssa.Defer, *ssa.RunDefers, *ssa.Go, *ssa.Range, *ssa.Next:
+				return false
+			case *ssa.Call:
+				if bi, ok := x.Call.Value.(*ssa.Builtin); ok && bi.Name() == "recover" {
+					return false
+				}
+			}
+		}
+	}
+	return true
+}
+
+func (vc *VC) tryInline(st *State, v *ssa.Call, callee *ssa.Function, args []Term, guard string, pos token.Pos) bool {
+	if !vc.inlinable(callee) || len(args) != len(callee.Params) {
+		return false
+	}
+	vc.inlineN++
+	tag := fmt.Sprintf("in%d", vc.inlineN)
+	saveTag, saveGuard := vc.inlineTag, vc.curGuard
+	vc.inlineTag = tag
+	vc.inlineDepth++
+	vc.inlineStack = append(vc.inlineStack, callee)
+	defer func() {
+		vc.inlineTag, vc.curGuard = saveTag, saveGuard
+		vc.inlineDepth--
+		vc.inlineStack = vc.inlineStack[:len(vc.inlineStack)-1]
+	}()
+	vc.note("call of " + vc.P.specName(callee) + " (no contract, no loop): executed in place")
+	for i, p := range callee.Params {
+		a := args[i]
+		if a.T == nil {
+			a.T = p.Type()
+		}
+		vc.vals[p] = a
+	}
+	// topological order of the (acyclic) body
+	var order []*ssa.BasicBlock
+	seen := map[*ssa.BasicBlock]bool{}
+	var visit func(b *ssa.BasicBlock)
+	visit = func(b *ssa.BasicBlock) {
+		seen[b] = true
+		for _, s := range b.Succs {
+			if !seen[s] {
+				visit(s)
+			}
+		}
+		order = append(order, b)
+	}
+	visit(callee.Blocks[0])
+	for i, j := 0, len(order)-1; i < j; i, j = i+1, j-1 {
+		order[i], order[j] = order[j], order[i]
+	}
+	blockR := map[*ssa.BasicBlock]string{}
+	exitSt := map[*ssa.BasicBlock]*State{}
+	edgeCond := func(p, s *ssa.BasicBlock) string {
+		r := blockR[p]
+		if ifi, ok := p.Instrs[len(p.Instrs)-1].(*ssa.If); ok {
+			c := vc.val(ifi.Cond).S
+			if p.Succs[0] == s && p.Succs[1] == s {
+				return r
+			}
+			if p.Succs[0] == s {
+				return and(r, c)
+			}
+			return and(r, not(c))
+		}
+		return r
+	}
+	type retPath struct {
+		cond string
+		st   *State
+		res  []Term
+	}
+	var rets []retPath
+	for _, b := range order {
+		rname := fmt.Sprintf("R_%s_%d", tag, b.Index)
+		vc.declare(rname, "Bool")
+		var bst *State
+		if b == callee.Blocks[0] {
+			bst = st.clone(vc)
+			vc.assume(sx("=", rname, guard))
+		} else {
+			var edges []parentEdge
+			var conds []string
+			for _, p := range b.Preds {
+				if _, ok := exitSt[p]; !ok {
+					continue
+				}
+				c := edgeCond(p, b)
+				edges = append(edges, parentEdge{c, exitSt[p]})
+				conds = append(conds, c)
+			}
+			if len(edges) == 0 {
+				continue
+			}
+			vc.assume(sx("=", rname, or(conds...)))
+			bst = vc.merge(edges)
+			bst.defers = st.defers
+		}
+		blockR[b] = rname
+		vc.curGuard = rname
+		for _, in := range b.Instrs {
+			phi, ok := in.(*ssa.Phi)
+			if !ok {
+				break
+			}
+			t := vc.bindFresh(phi, rname)
+			for i, p := range b.Preds {
+				if _, ok := exitSt[p]; !ok {
+					continue
+				}
+				ev := vc.val(phi.Edges[i])
+				vc.assume(implies(edgeCond(p, b), sx("=", t.S, ev.S)))
+			}
+		}
+		returned := false
+		for _, in := range b.Instrs {
+			if _, ok := in.(*ssa.Phi); ok {
+				continue
+			}
+			if r, ok := in.(*ssa.Return); ok {
+				var res []Term
+				for _, x := range r.Results {
+					res = append(res, vc.val(x))
+				}
+				rets = append(rets, retPath{rname, bst, res})
+				returned = true
+				break
+			}
+			vc.instr(bst, in, rname)
+		}
+		if !returned {
+			exitSt[b] = bst
+		}
+	}
+	if len(rets) == 0 {
+		// the helper never returns (it panics on every path): nothing follows the call
+		vc.assume(not(guard))
+		vc.setResults(v, vc.freshResults(callee.Signature, "r"))
+		return true
+	}
+	var edges []parentEdge
+	for _, r := range rets {
+		edges = append(edges, parentEdge{r.cond, r.st})
+	}
+	merged := vc.merge(edges)
+	merged.defers = st.defers
+	*st = *merged
+	if callee.Signature.Results().Len() > 0 {
+		res := vc.freshResults(callee.Signature, "r_"+tag)
+		for _, r := range rets {
+			for i := range res {
+				if i < len(r.res) {
+					rv := r.res[i]
+					if rv.Sort != res[i].Sort {
+						rv, _ = (&Env{vc: vc, st: st, old: st, vars: map[string]Term{}, pkg: vc.pkgOf(callee)}).coerceNil(rv, res[i])
+					}
+					if rv.Sort == res[i].Sort {
+						vc.assume(implies(r.cond, sx("=", res[i].S, rv.S)))
+					}
+				}
+			}
+		}
+		vc.setResults(v, res)
+	}
+	return true
 }
